@@ -1,20 +1,31 @@
 """C11 -- suppression and enabling are a pure projection of the diagnostics.
 
-Model: spec/Suppression.tla (show_error decision chain as a state machine + declarative RefD).
-S->C: every abstract file x settings TLC enumerates is realised as Python source and checked by the
-real NameCheckVisitor with the ShowError hook on.  C->S: the recorded Begin/ShowError/End event
-streams are validated step by step by TLC against SuppressionTrace.tla.
+Base model: spec/Suppression.tla (show_error decision chain as a state machine + declarative RefD), files of
+module-level lambdas, settings through the constructor route and per-module overrides.
+Routes: spec/SuppressionRoutes.tla -- (1) enabling: command line (--enable-all/--disable-all/-e/-d) over the
+configuration file (top-level section, override of this module, override of another module) over the built-in
+default, ImplEnabled (transcription) = RefEnabled (documented precedence); (2) files with structure (multi-line
+statements, function bodies, decorators, nested defs, docstring / shebang / comment leading blocks, `ignore[a, b]`);
+(3) catch_errors as state (CatchBegin / ShowCaught / CatchEndDrop / CatchEndReemit / Reshow*).
+S->C: every case TLC enumerates or simulates is realised as Python source and checked by the real code -- through
+the constructor `settings` route, through an in-process NameCheckVisitor.main() run (argument parser, config file,
+two modules sharing one Checker) and, for a sample, through `python -m pyanalyze`.  C->S: the recorded
+Begin/ShowError/Caught/Meta/End event streams are validated step by step by TLC against SuppressionTrace.tla /
+SuppressionRoutesTrace.tla, which also judge the final failure list by the Ref operators.
 """
 from __future__ import annotations
 
+import copy
 import random
+from concurrent.futures import ThreadPoolExecutor
 from typing import Any
 
 from .. import core, pyz
 
 LEVEL = "model_checking"
 
-from ..supp_common import ABSTRACT, META, REAL_CODE, render, settings_of  # noqa: E402
+from .. import supp_routes as sr  # noqa: E402
+from ..supp_common import ABSTRACT, META, REAL_CODE, render, settings_of  # noqa: E402, F401
 
 
 def observe_one(arg: tuple[int, dict]) -> list[dict]:
@@ -104,12 +115,12 @@ def judge(check: core.Check, cases: list[dict], label: str) -> None:
     _adjudicate(check, per_case, label)
 
 
-def _adjudicate(check: core.Check, per_case: list[list[dict]], label: str) -> None:
+def _adjudicate(check: core.Check, per_case: list[list[dict]], label: str, *, module: str = "SuppressionTrace",
+                route: str = "base", extra: list[dict] | None = None) -> dict[Any, list[str]]:
     cases = [lines[0]["case"] for lines in per_case]
     for i, lines in enumerate(per_case):      # re-number: tids are positions in per_case
         for ln in lines:
             ln["tid"] = i
-    obs = [ln for lines in per_case for ln in lines]
     # batches must not split a Begin..End group
     batches: list[list[dict]] = [[]]
     for lines in per_case:
@@ -117,25 +128,154 @@ def _adjudicate(check: core.Check, per_case: list[list[dict]], label: str) -> No
             batches.append([])
         batches[-1].extend(lines)
     all_verdicts: dict[Any, list[str]] = {}
-    for b in batches:
-        if not b:
-            continue
-        verdicts, stats = core.adjudicate("SuppressionTrace", "SuppressionTrace.cfg", b, batch=10**9)
-        check.add_trace_stats(stats)
-        for k, v in verdicts.items():
-            all_verdicts.setdefault(k, []).extend(v)
+
+    def one(b):
+        return core.adjudicate(module, module + ".cfg", b, batch=10**9)
+
+    with ThreadPoolExecutor(4) as ex:
+        for verdicts, stats in ex.map(one, [b for b in batches if b]):
+            check.add_trace_stats(stats)
+            for k, v in verdicts.items():
+                all_verdicts.setdefault(k, []).extend(v)
     check.evals(len(cases))
     for tid, case in enumerate(cases):
         if any(ln["ign"] != "none" for ln in case["lines"]) and any(ln["diags"] for ln in case["lines"]):
             check.nontrivial(core.canon(case))
         for v in all_verdicts.get(tid, []):
-            payload = {"case": case, "source": label, "src": per_case[tid][0]["src"], "trace": per_case[tid][1:]}
+            begin = per_case[tid][0]
+            payload = {"case": case, "source": label, "route": route, "src": begin["src"], "trace": per_case[tid][1:]}
+            for k in ("argv", "toml"):
+                if k in begin:
+                    payload[k] = begin[k]
+            if extra is not None:
+                payload.update(extra[tid])
             if v.startswith("viol:"):
                 check.violation(core.canon(case), v[5:], payload)
-            else:
+            elif v.startswith("drift:"):
                 check.drift({"verdict": v, **payload})
+            else:
+                raise core.MachineryError(f"unexpected verdict {v} for {case}")
     for k in (0, len(cases) // 2, len(cases) - 1):
-        check.sample({"source": label, "trace": per_case[k]})
+        if cases:
+            check.sample({"source": label, "trace": per_case[k][:40]})
+    return all_verdicts
+
+
+# --------------------------------------------------------------------------- routes
+
+
+def judge_ctor(check: core.Check, cases: list[dict], label: str) -> list[list[dict]]:
+    per_case = core.pmap(sr.observe_ctor, list(enumerate(cases)), chunk=100)
+    _adjudicate(check, per_case, label, module="SuppressionRoutesTrace", route="ctor")
+    return per_case
+
+
+def _pairs(cases: list[dict]) -> list[tuple[int, dict, list]]:
+    """Runs of two files: file A with the case's request, file B = the next case's lines under the same request seen
+    from the other module (its override section is A's `oth`)."""
+    n = len(cases)
+    return [(2 * k, cases[k], cases[(k + 1) % n]["lines"]) for k in range(n)]
+
+
+def judge_cli(check: core.Check, cases: list[dict], label: str, *, subprocess_route: bool = False) -> None:
+    args = _pairs(cases)
+    if subprocess_route:
+        with ThreadPoolExecutor(8) as ex:
+            groups = list(ex.map(sr.observe_subprocess, args))
+    else:
+        groups = core.pmap(sr.observe_cli, args, chunk=8)
+    per_case, extra = [], []
+    for (_, case_a, lines_b), g in zip(args, groups):
+        for lines in g:
+            per_case.append(lines)
+            extra.append({"run": {"case_a": case_a, "lines_b": lines_b}})
+    _adjudicate(check, per_case, label, module="SuppressionRoutesTrace", route="sub" if subprocess_route else "cli",
+                extra=extra)
+
+
+def _verdicts_of(groups: list[list[dict]]) -> list[str]:
+    groups = copy.deepcopy(groups)
+    for i, g in enumerate(groups):
+        for ln in g:
+            ln["tid"] = i
+    verdicts, _ = core.adjudicate("SuppressionRoutesTrace", "SuppressionRoutesTrace.cfg", [ln for g in groups for ln in g],
+                                  batch=10**9)
+    return [",".join(sorted(verdicts.get(i, []))) for i in range(len(groups))]
+
+
+def selftest_trace(check: core.Check, per_case: list[list[dict]]) -> None:
+    """Sensitivity of the trace specification's oracle clauses: real observations are corrupted in the way a defect of
+    the corresponding mechanism would corrupt them; TLC must answer viol:ProjectionOK for each."""
+    def dropped_unused(g):
+        # the ignore comment on a line whose only errors were caught and dropped is reported unused: hide that report
+        case, out = g[0]["case"], g[-1]["out"]
+        for k, ln in enumerate(case["lines"], 1):
+            if ln["shape"] == "wbody" and ln["ign"] != "none" and ["unused_ignore", k] in out:
+                g2 = copy.deepcopy(g)
+                g2[-1]["out"].remove(["unused_ignore", k])
+                return g2
+        return None
+
+    def reemitted_used(g):
+        # a comment that suppressed a re-emitted error (c4) is reported unused although it was used
+        case, out = g[0]["case"], g[-1]["out"]
+        if "unused_ignore" not in case["cfg"]["en"] or "c4" in case["cfg"]["dis"]:
+            return None
+        for k, ln in enumerate(case["lines"], 1):
+            if ln["shape"] == "stmt" and ln["ign"] in ("c4", "bare") and ln["diags"] == ["c4"] \
+                    and ["unused_ignore", k] not in out and not any(o[1] == k for o in out):
+                if any(p["kind"] == "own" for p in case["lines"]):
+                    continue
+                g2 = copy.deepcopy(g)
+                g2[-1]["out"].append(["unused_ignore", k])
+                return g2
+        return None
+
+    def disabled_still_reported(g):
+        # the request disables a code whose diagnostic is (still) in the output
+        case, out = g[0]["case"], g[-1]["out"]
+        for code, _k in out:
+            if code in ("c1", "c2", "c4"):
+                g2 = copy.deepcopy(g)
+                g2[0]["case"]["cfg"]["dis"] = sorted(set(case["cfg"]["dis"]) | {code})
+                g2[0]["case"]["cfg"]["en"] = [c for c in case["cfg"]["en"] if c != code]
+                return g2
+        return None
+
+    def dropped_reported(g):
+        # an error caught by an assert_error block leaks into the output
+        case = g[0]["case"]
+        for k, ln in enumerate(case["lines"], 1):
+            if ln["shape"] == "wbody" and ln["diags"] and ln["diags"][0] not in case["cfg"]["dis"]:
+                if any(p["kind"] == "own" for p in case["lines"]) or ln["ign"] != "none":
+                    continue
+                g2 = copy.deepcopy(g)
+                g2[-1]["out"].append([ln["diags"][0], k])
+                return g2
+        return None
+
+    corrupted, names = [], []
+    for name, f in (("dropped-error-comment-not-reported-unused", dropped_unused),
+                    ("comment-used-by-reemitted-error-reported-unused", reemitted_used),
+                    ("disabled-code-still-reported", disabled_still_reported),
+                    ("dropped-error-reported", dropped_reported)):
+        for g in per_case:
+            g2 = f(g)
+            if g2 is not None:
+                corrupted.append(g2)
+                names.append(name)
+                break
+        else:
+            raise core.MachineryError(f"trace self-test {name}: no suitable real observation (vacuous)")
+    got = _verdicts_of(corrupted)
+    for name, v in zip(names, got):
+        if "viol:ProjectionOK" not in v:
+            raise core.MachineryError(f"trace self-test {name}: corrupted observation was not rejected (verdicts: {v!r})")
+    check.cov["trace_sensitivity"] = {n: v for n, v in zip(names, got)}
+
+
+DESIGN_ACTIONS = ["RPickShape", "RAddLine", "RChooseAll", "RChooseCode", "RChooseFile", "RStart", "CatchBegin", "ShowCaught",
+                  "ShowDecide", "CatchEndDrop", "CatchEndReemit", "ReshowCaught", "ReshowDecide", "RUnusedPass", "RBarePass"]
 
 
 def run(check: core.Check) -> None:
@@ -144,42 +284,142 @@ def run(check: core.Check) -> None:
     check.assumptions += [
         "TLC 1.8.0; Suppression.tla's RefReported/OutputOK is the README's meaning of ignore comments "
         "(a leading own-line ignore[code] is read as a file-level ignore for that code, as the implementation does)",
-        "diagnostics are realised with module-level lambdas raising undefined_name / unsupported_operation",
+        "base slice: diagnostics are realised with module-level lambdas raising undefined_name / unsupported_operation",
+        "routes: RefEnabled = -d over -e over --enable-all/--disable-all over the module's override section over the "
+        "top-level section over the built-in default (README, --help texts, docs/configuration.md; a code named by both "
+        "-e and -d is disabled: 'disabling a code by command line removes exactly its diagnostics'); the undocumented "
+        "`disable_all` configuration key belongs to C18",
+        "routes: `ignore[a, b]` is not a documented form: it suppresses nothing and is reported unused (never bare); "
+        "comments naming unused_ignore / bare_ignore are outside the domain (self-referential)",
+        "routes: implicit_any (raised at several nodes of every realised line) is switched off with -d whenever "
+        "--enable-all is requested; were it reported all the same, TLC judges the output a violation",
+        "routes: a diagnostic belongs to the line show_error reports it at (node.lineno: continuation line, decorator "
+        "line, def line); errors caught by a `with assert_error():` block are not diagnostics of the file",
     ]
-    # 1. design: exhaustive TLC of the state machine against RefD
-    cfg = "Suppression.quick.cfg" if quick else "Suppression.thorough.cfg"
-    res = core.require_ok(core.run_tlc("Suppression", cfg, coverage=True, timeout=3000), "Suppression exhaustive")
-    core.require_coverage(res, ["AddLine", "ChooseSettings", "ShowStep", "UnusedPass", "BarePass"], "Suppression")
-    check.add_tlc("exhaustive:" + cfg, res)
-    pin = core.run_tlc("Suppression", "Suppression.pinned.cfg", timeout=600)
-    if pin.violated != "ProjectionOK":
+    # ---- 1. design: every TLC run of the two specifications, side by side
+    R = "SuppressionRoutesMC"
+    jobs: dict[str, tuple] = {
+        "base": ("Suppression", "Suppression.quick.cfg" if quick else "Suppression.thorough.cfg", False, 16),
+        "base-emit": ("SuppressionEmit", "Suppression.emit2.cfg" if quick else "Suppression.emit3.cfg", quick, 8),
+        "pinned": ("Suppression", "Suppression.pinned.cfg", False, 4),
+        "enable": (R, "SuppressionRoutes.enable.cfg" if quick else "SuppressionRoutes.enable3.cfg", False, 4 if quick else 16),
+        "catchflat": (R, "SuppressionRoutes.catchflat2.cfg" if quick else "SuppressionRoutes.catchflat3.cfg", False, 8),
+        "catchblock": (R, "SuppressionRoutes.catchblockq.cfg" if quick else "SuppressionRoutes.catchblock.cfg", quick, 8),
+    }
+    sens = {
+        "enablebug_disable_before_enable": "EEnabledOK",
+        "enablebug_config_beats_command_line": "EEnabledOK",
+        "enablebug_other_module_applies": "EEnabledOK",
+        "catchbug_caught_marks_used": "RProjectionOK",
+        "catchbug_drop_reemits": "RChainOnce",
+    }
+    for name in sens:
+        jobs[name] = (R, f"SuppressionRoutes.{name}.cfg", False, 4)
+
+    def tlc(job):
+        module, cfg, cov, workers = job
+        return core.run_tlc(module, cfg, coverage=cov, workers=workers, timeout=3400)
+
+    with ThreadPoolExecutor(3 if quick else 2) as ex:
+        results = dict(zip(jobs, ex.map(tlc, jobs.values())))
+    for name in ("base", "base-emit", "enable", "catchflat", "catchblock"):
+        core.require_ok(results[name], f"C11 design run {name} ({jobs[name][1]})")
+        check.add_tlc(f"{name}:{jobs[name][1]}", results[name])
+    if quick:
+        core.require_coverage(results["base-emit"], ["AddLine", "ChooseSettings", "ShowStep", "UnusedPass", "BarePass"], "Suppression")
+        core.require_coverage(results["catchblock"], DESIGN_ACTIONS, "SuppressionRoutes")
+    if results["pinned"].violated != "ProjectionOK":
         raise core.MachineryError("sensitivity self-test failed: pinned lines[-1] wrap not rejected by the model")
-    check.cov["sensitivity"] = "model with the pinned lines[lineno-2] wrap violates ProjectionOK, as expected"
-    # 2. S->C: exhaustive replay of the smaller bound
-    emit_cfg = "Suppression.emit2.cfg" if quick else "Suppression.emit3.cfg"
-    em = core.require_ok(core.run_tlc("SuppressionEmit", emit_cfg, timeout=3000), "Suppression emit")
-    check.add_tlc("emit:" + emit_cfg, em)
-    cases = core.emitted_json(em)
-    limit = 12000 if quick else 300000
+    for name, inv in sens.items():
+        if results[name].violated != inv:
+            raise core.MachineryError(f"sensitivity self-test failed: seeded model defect {name} did not violate {inv} "
+                                      f"(violated: {results[name].violated}, error: {results[name].error})")
+    check.cov["sensitivity"] = ("model with the pinned lines[lineno-2] wrap violates ProjectionOK; the seeded model defects "
+                                + ", ".join(sens) + " violate " + ", ".join(sorted(set(sens.values()))) + ", as expected")
+
+    # ---- 2. base slice, S->C: replay of the exhaustive smaller bound
+    cases = core.emitted_json(results["base-emit"])
+    limit = 6000 if quick else 300000
     exhaustive = len(cases) <= limit
     if not exhaustive:
         cases = rnd.sample(cases, limit)
     check.cov["exhaustive"] = exhaustive
     check.cov["rule"] = (
-        "cases = (abstract file of <=N lines over 26 line forms) x (disabled subset, unused_ignore on/off, bare_ignore "
-        "on/off) enumerated by TLC; non-trivial = has both a diagnostic and an ignore comment"
+        "base: cases = (abstract file of <=N lines over 26 line forms) x (disabled subset, unused_ignore on/off, bare_ignore "
+        "on/off) enumerated by TLC (design check exhaustive for N=3 quick / 4 thorough; replay of all N=2 quick (sampled to "
+        f"{limit}) / N=3 thorough files); routes: enabling = every request over (all-flag x {{-e,-d,both,neither}} x top x "
+        "override x other-module override) for a default-on and a default-off code (quick; + unused_ignore thorough); "
+        "catch = every flat file of <=2 (quick) / 3 (thorough) lines over diags {c1,c4,c2,c1+c4} x comments "
+        "{bare,c4,c3,multi} and every extension by <=2 lines of the three `with assert_error():` block heads, x requests "
+        "over {c4, unused_ignore}; structure + command line = TLC simulation of files of 3..8 lines over 12 shapes, 14 "
+        "diagnostic sets, 8 comment forms x requests over all 7 codes, replayed through main() two files per run; "
+        "non-trivial = has both a diagnostic and an ignore comment"
     )
     judge(check, cases, "tlc-exhaustive")
-    # 3. beyond: TLC simulation of longer files
-    sim_cases = core.simulate_cases("SuppressionEmit", "Suppression.sim.cfg", 1500 if quick else 40000, depth=14,
-                                    seed=check.seed + 11, check=check)
+    # base, beyond: TLC simulation of longer files
+    sim_cases = core.simulate_cases("SuppressionEmit", "Suppression.sim.cfg", 800 if quick else 40000, depth=14,
+                                    seed=check.seed + 11, check=check, first_num=900 if quick else None)
     judge(check, sim_cases, "tlc-simulate")
     # the same cases with the codes disabled through per-module overrides of one configuration file, two modules with
     # different settings sharing one Checker
     ov = list(cases)
     rnd.shuffle(ov)
-    judge_overrides(check, ov[: 1200 if quick else 40000], "per-module-override")
+    judge_overrides(check, ov[: 600 if quick else 40000], "per-module-override")
+
+    # ---- 3. routes, S->C
+    flat = core.emitted_json(results["catchflat"])
+    block = core.emitted_json(results["catchblock"])
+    check.cov["routes_cases"] = {"catch-flat": len(flat), "catch-block": len(block)}
+    lim = 2500 if quick else 200000
+    flat_s = flat if len(flat) <= lim else rnd.sample(flat, lim)
+    block_s = block if len(block) <= lim else rnd.sample(block, lim)
+    judge_ctor(check, flat_s, "routes-catch-flat/constructor-settings")
+    per_block = judge_ctor(check, block_s, "routes-catch-block/constructor-settings")
+    selftest_trace(check, per_block)
+    # structure x command line x configuration file, through main()
+    want = 250 if quick else 12000
+    sims = []
+    for cfg, seed in (("SuppressionRoutes.sim.cfg", 17), ("SuppressionRoutes.simblock.cfg", 29)):
+        sims += _simulate_routes(check, cfg, want, check.seed + seed)
+    check.cov["routes_cases"]["simulated"] = len(sims)
+    judge_cli(check, sims, "routes-structure/main()")
+    # the flat catch cases' files under full requests: the enabling dimension exhaustively chosen by TLC is too large to
+    # replay, so requests are taken from the simulated cases and files from the exhaustive slice
+    mixed = [{"lines": f["lines"], "cfg": s["cfg"]} for f, s in zip(rnd.sample(flat, min(len(flat), len(sims))), sims)]
+    judge_cli(check, mixed, "routes-catch-flat/main()")
+    judge_cli(check, rnd.sample(sims, 10 if quick else 60), "routes-structure/python -m pyanalyze", subprocess_route=True)
+
+
+def _simulate_routes(check: core.Check, cfg: str, want: int, seed: int) -> list[dict]:
+    uniq: dict[str, dict] = {}
+    num = max(4, want // 5)
+    for rnd_i in range(3):
+        res = core.require_ok(core.run_tlc("SuppressionRoutesMC", cfg, workers=8, simulate=f"num={num}", depth=250,
+                                           seed=seed + 7919 * rnd_i, timeout=1700), f"SuppressionRoutes simulate {cfg}")
+        check.add_tlc(f"simulate:{cfg}:num={num}x8", res)
+        for c in core.emitted_json(res):
+            uniq.setdefault(core.canon(c), c)
+        if len(uniq) >= want:
+            break
+        num *= 3
+    cases = list(uniq.values())
+    if not cases:
+        raise core.MachineryError(f"simulation of SuppressionRoutes/{cfg} produced no cases")
+    if len(cases) > want:
+        cases = random.Random(seed).sample(cases, want)
+    return cases
 
 
 def replay(check: core.Check, witness: dict) -> None:
-    judge(check, [witness["case"]], "replay")
+    route = witness.get("route", "base")
+    if route == "base":
+        judge(check, [witness["case"]], "replay")
+    elif route == "ctor":
+        judge_ctor(check, [witness["case"]], "replay")
+    else:
+        run_ = witness["run"]
+        args = [(0, run_["case_a"], run_["lines_b"])]
+        groups = [sr.observe_subprocess(a) if route == "sub" else sr.observe_cli(a) for a in args]
+        per_case = [lines for g in groups for lines in g]
+        _adjudicate(check, per_case, "replay", module="SuppressionRoutesTrace", route=route,
+                    extra=[{"run": run_} for _ in per_case])
